@@ -25,7 +25,7 @@ let () =
       (match toks with
        | [] -> print_newline ()
        | leg :: args ->
-         let res = run (z_of_int (int_of_string leg)) (List.map (fun s -> z_of_int (int_of_string s)) args) in
+         let res = verif_main (z_of_int (int_of_string leg)) (List.map (fun s -> z_of_int (int_of_string s)) args) in
          Buffer.clear buf;
          List.iteri (fun i z -> if i > 0 then Buffer.add_char buf ' '; Buffer.add_string buf (string_of_int (int_of_z z))) res;
          print_string (Buffer.contents buf); print_newline ())
